@@ -62,11 +62,10 @@ pub(super) fn execute_distinct<'a, S: GraphSnapshot + 'a>(
                 .map(|(_, v)| format!("{:?}", v))
                 .collect::<Vec<_>>()
                 .join(",");
-            if seen.insert(key) {
-                return true;
-            }
+            return seen.insert(key);
         }
-        false
+        // An error row must reach the caller (see execute_union).
+        true
     })))
 }
 
@@ -149,11 +148,11 @@ pub(super) fn execute_union<'a, S: GraphSnapshot + 'a>(
                     .map(|(_, v)| format!("{:?}", v))
                     .collect::<Vec<_>>()
                     .join(",");
-                if seen.insert(key) {
-                    return true;
-                }
+                return seen.insert(key);
             }
-            false
+            // An error row must reach the caller: dropping it here turned a failing query into
+            // a successful one with the failing rows silently missing.
+            true
         })))
     }
 }
